@@ -30,6 +30,7 @@ func (P *Program) verifyFunction(con *Contract) (res *FuncResult) {
 	g := newGen(P, fn, con, con.Mode)
 	g.fnKey = con.Key
 	g.needUni = map[string]bool{}
+	g.useElemFn = contractHasQuantifier(con)
 	defer func() {
 		if r := recover(); r != nil {
 			if ee, ok := r.(engineError); ok {
@@ -267,4 +268,24 @@ func (P *Program) verifyLemma(l *Lemma) (res *FuncResult) {
 	}
 	sortStrings(res.Notes)
 	return
+}
+
+func contractHasQuantifier(con *Contract) bool {
+	has := func(cs []*Clause) bool {
+		for _, c := range cs {
+			if strings.Contains(c.Text, "forall") || strings.Contains(c.Text, "exists") {
+				return true
+			}
+		}
+		return false
+	}
+	if has(con.Requires) || has(con.Ensures) || has(con.Asserts) {
+		return true
+	}
+	for _, l := range con.Loops {
+		if has(l.Invariants) {
+			return true
+		}
+	}
+	return false
 }
